@@ -693,8 +693,8 @@ func checkHandover(c handCase) *vt.Fail {
 		if err != nil {
 			return vt.Failf("HARNESS-acquire-failed", "waiter: %v", err)
 		}
-	case <-time.After(20 * time.Second):
-		rec.Infra("waiter did not return within 20 s after the release (inconclusive)")
+	case <-time.After(90 * time.Second):
+		rec.Infra("waiter did not return within 90 s after the release (inconclusive)")
 		return nil
 	}
 	if atomic.LoadInt32(&enteredEarly) != 0 {
